@@ -141,6 +141,10 @@ pub enum Op {
 	De(Src, Tgt),
 	/// Debug-format the schema in src
 	Dbg(Src),
+	/// Debug-format the schema in src while a panic is in flight: 0 / 1 = into a `fmt::Write` sink that
+	/// panics on its 1st / 3rd write (under catch_unwind); 2 = from the destructor of a guard that is dropped
+	/// by a panic (under catch_unwind). Native extras only.
+	DbgPanic(Src, u8),
 	DropV(u8),
 	/// R <- Reader::from_slice / from_reader over the container file of the codec
 	/// (the third field selects the file: 0 = two small blocks, 1 = four blocks whose decompressed sizes go
@@ -178,6 +182,7 @@ impl Op {
 			Op::DropC => "Xc".into(),
 			Op::De(s, t) => format!("De{}{}", s.letter(), t.letter()),
 			Op::Dbg(s) => format!("Dg{}", s.letter()),
+			Op::DbgPanic(s, m) => format!("Dp{}{m}", s.letter()),
 			Op::DropV(i) => format!("Xv{i}"),
 			Op::Open(k, c, 0) => format!("Op{}{}", k.letter(), c.letter()),
 			Op::Open(k, c, f) => format!("Op{}{}{f}", k.letter(), c.letter()),
@@ -213,6 +218,7 @@ impl Op {
 			"Xc" => only(0).map(|_| Op::DropC)?,
 			"De" => only(2).map(|_| ()).and_then(|_| Some(Op::De(Src::from_letter(ch(0)?)?, Tgt::from_letter(ch(1)?)?)))?,
 			"Dg" => only(1).and_then(|_| Src::from_letter(ch(0)?)).map(Op::Dbg)?,
+			"Dp" => Op::DbgPanic(Src::from_letter(ch(0)?)?, num(1).filter(|m| *m < 3)?),
 			"Xv" => Op::DropV(num(0).filter(|v| *v < 2)?),
 			"Op" => Op::Open(RKind::from_letter(ch(0)?)?, Codec::from_letter(ch(1)?)?, if rest.len() == 2 { 0 } else { num(2).filter(|f| *f < fixtures::N_FILE_VARIANTS)? }),
 			"Nx" => only(1).and_then(|_| Tgt::from_letter(ch(0)?)).map(Op::Next)?,
@@ -269,6 +275,11 @@ impl Op {
 			Op::De(s, Tgt::Owned) => format!("v = from_datum_reader::<_, RecO>(datum, &{})", src(s)),
 			Op::De(s, t) => format!("v = from_datum_slice::<{t:?}>(datum, &{})", src(s)),
 			Op::Dbg(s) => format!("format!(\"{{:?}}\", {})", src(s)),
+			Op::DbgPanic(s, m) => match m {
+				0 => format!("catch_unwind(|| write!(sink that panics on its 1st write, \"{{:?}}\", {}))", src(s)),
+				1 => format!("catch_unwind(|| write!(sink that panics on its 3rd write, \"{{:?}}\", {}))", src(s)),
+				_ => format!("catch_unwind(|| {{ let _g = guard whose Drop does format!(\"{{:?}}\", {}); panic!() }})", src(s)),
+			},
 			Op::DropV(i) => format!("drop(v{i})"),
 			Op::Open(k, c, f) => {
 				let file = match f {
@@ -561,6 +572,26 @@ impl Profile {
 		debug_assert!(out.iter().all(|h| admissible(h).is_some()));
 		out
 	}
+	/// Native-only extras: Debug-formatting of a schema that is interrupted by a panic (a sink that panics
+	/// on its 1st / 3rd write, under catch_unwind) or that runs in a destructor during unwinding, followed
+	/// by the ordinary Debug / serialise operations on the same thread. A history with such an operation
+	/// runs on a thread of its own (see `cli::run_history`), so the differential oracle compares it with
+	/// dependency cones executed on threads that never saw a panic.
+	pub fn extras_native() -> Vec<Vec<Op>> {
+		let mut out = Vec::new();
+		let (s, a, b) = (Src::S, Src::A, Src::B);
+		for m in 0..3u8 {
+			out.push(vec![Op::ParseS(0), Op::DbgPanic(s, m), Op::Dbg(s)]);
+			out.push(vec![Op::ParseS(0), Op::Dbg(s), Op::DbgPanic(s, m), Op::Ser(s), Op::Dbg(s), Op::DbgPanic(s, (m + 1) % 3), Op::Dbg(s)]);
+			out.push(vec![Op::ParseS(0), Op::Cfg(s), Op::DbgPanic(s, m), Op::SerC(2), Op::SerC(0), Op::Dbg(s)]);
+			out.push(vec![Op::ParseS(0), Op::ArcNew, Op::DbgPanic(a, m), Op::ArcClone(a), Op::DropArc(a, 1), Op::Dbg(b)]);
+			out.push(vec![Op::Open(RKind::Slice, Codec::Null, 0), Op::RSchema, Op::DbgPanic(a, m), Op::DropR(0), Op::Dbg(a)]);
+			out.push(vec![Op::Build(1), Op::Freeze, Op::DbgPanic(s, m), Op::MoveS(1), Op::Dbg(s)]);
+			out.push(vec![Op::ParseS(2), Op::DbgPanic(s, m), Op::Dbg(s), Op::DropS(0), Op::ParseS(0), Op::Dbg(s)]);
+		}
+		debug_assert!(out.iter().all(|h| admissible(h).is_some()));
+		out
+	}
 	/// The sized files of the C codecs read to the end (native, AddressSanitizer, valgrind only).
 	pub fn extras_ccodecs() -> Vec<Vec<Op>> {
 		let mut out = Vec::new();
@@ -612,7 +643,7 @@ impl Abs {
 			Op::DropArc(s, _) => s != Src::S && self.src_live(s) && !self.borrowed(s),
 			Op::Cfg(s) => self.c.is_none() && self.src_live(s),
 			Op::SerC(_) | Op::DropC => self.c.is_some(),
-			Op::Ser(s) | Op::Dbg(s) | Op::De(s, _) => self.src_live(s),
+			Op::Ser(s) | Op::Dbg(s) | Op::DbgPanic(s, _) | Op::De(s, _) => self.src_live(s),
 			Op::DropV(i) => self.v[i as usize],
 			Op::Open(..) => self.r.is_none(),
 			Op::Next(t) => match self.r {
@@ -655,7 +686,7 @@ impl Abs {
 			}
 			Op::DropArc(s, _) => self.arc[s.arc_index().unwrap()] = false,
 			Op::Cfg(s) => self.c = Some(s),
-			Op::SerC(_) | Op::Ser(_) | Op::Dbg(_) => {}
+			Op::SerC(_) | Op::Ser(_) | Op::Dbg(_) | Op::DbgPanic(..) => {}
 			Op::DropC => self.c = None,
 			Op::De(..) | Op::Next(_) => {
 				// the value goes to the first free slot; with both occupied it is checked and dropped at once
@@ -857,7 +888,7 @@ pub fn cone(h: &[Op], idx: usize) -> Vec<Op> {
 				d = l.c.clone();
 			}
 			Op::DropC => l.c.clear(),
-			Op::Ser(s) | Op::Dbg(s) | Op::De(s, _) => {
+			Op::Ser(s) | Op::Dbg(s) | Op::DbgPanic(s, _) | Op::De(s, _) => {
 				d = src_lin(&l, s);
 				d.push(i);
 			}
@@ -911,6 +942,7 @@ pub fn cone(h: &[Op], idx: usize) -> Vec<Op> {
 				Op::Cfg(s) => Op::Cfg(ren(s)),
 				Op::Ser(s) => Op::Ser(ren(s)),
 				Op::Dbg(s) => Op::Dbg(ren(s)),
+				Op::DbgPanic(s, m) => Op::DbgPanic(ren(s), m),
 				Op::De(s, t) => Op::De(ren(s), t),
 				o => o,
 			};
@@ -942,7 +974,7 @@ pub fn has_result(op: Op) -> bool {
 /// serialise, deserialise, Debug, reader open / next) AND contains at least one lifecycle event that
 /// the tests never order differently (drop, move, Arc clone, edit, error-path freeze).
 pub fn nontrivial(h: &[Op]) -> bool {
-	let uses = h.iter().any(|o| matches!(o, Op::Freeze | Op::ParseS(_) | Op::FreezeBad(_) | Op::Gather(_) | Op::SerC(_) | Op::Ser(_) | Op::De(..) | Op::Dbg(_) | Op::Open(..) | Op::Next(_)));
+	let uses = h.iter().any(|o| matches!(o, Op::Freeze | Op::ParseS(_) | Op::FreezeBad(_) | Op::Gather(_) | Op::SerC(_) | Op::Ser(_) | Op::De(..) | Op::Dbg(_) | Op::DbgPanic(..) | Op::Open(..) | Op::Next(_)));
 	let life = h.iter().any(|o| {
 		matches!(
 			o,
